@@ -179,7 +179,16 @@ def run(ctx):
     ctx.saw(en)
     ecfg = en.cfg
     sc = q.branches(en, lambda a: any(x.callee_qp == S + 'sequence_check' for x in q.calls_in(a)) or (a.is_call and a.callee_qp == S + 'sequence_check'))
-    ctx.need(sc, 'sequence_check not used as a decision in enforce')
+    if not sc:
+        # second idiom: the verdict is returned as an expression of the call (`return !sequence_check(..)`)
+        rts = [n for n in en.all_nodes() if n.k == 'ReturnStmt' and n.children and any(x.callee_qp == S + 'sequence_check' for x in q.calls_in(n.children[0]))]
+        ctx.need(rts, 'sequence_check is neither a decision nor part of a return expression in enforce')
+        for r_ in rts:
+            call_ = [x for x in q.calls_in(r_.children[0]) if x.callee_qp == S + 'sequence_check'][0]
+            vt = q.eval_int(r_.children[0], {}, atom=lambda n, _c=call_: 1 if n == _c else None)
+            vf = q.eval_int(r_.children[0], {}, atom=lambda n, _c=call_: 0 if n == _c else None)
+            ctx.check(vt == 0, 'R19.2', S + 'enforce#accept', r_.loc, 'sequence_check true (acceptable) => enforce returns false (deliver)')
+            ctx.check(vf == 1, 'R19.2', S + 'enforce#refuse', r_.loc, 'sequence_check false (gap) => enforce returns true (do not deliver)')
     for br in sc:
         b, atom, pol = br
         if atom.is_call and atom.callee_qp == S + 'sequence_check':
